@@ -48,6 +48,7 @@ Case gen_C20(uint64_t seed, long run, const GenCfg &g, const char *inflight) {
     c.sched_seed = r.next(); c.sched_mode = r.chance(0.75) ? SM_SLICES : SM_PCT;
     double a = r.unit(), b = r.unit(), cc = r.unit(), d = r.unit() * 0.5, sum = a + b + cc + d;
     c.w_fine = a / sum; c.w_mid = b / sum; c.w_coarse = cc / sum; c.pct_d = r.range(1, 3);
+    { static const uint64_t sp[] = {20000, 100000, 400000, 1500000}; c.pct_span = sp[r.below(4)]; }
     if (inflight) write_inflight(inflight, c);
     return c;
 }
@@ -81,6 +82,14 @@ static void judge_client(const TaskPlan &plan, const PlanRun &pr, const std::str
 RunOutcome exec_C20(const Case &c) {
     RunOutcome out; if (c.tasks.empty()) return out;
     Hash64 h; int nc = (int)c.tasks.size(); uint64_t total = 0;
+    // concurrent clients first (see wl_c09.cpp: first calls of a fresh process then happen on different threads)
+    ConcurrentResult cr;
+    if (nc >= 2) {
+        SchedConfig sc; sc.mode = c.sched_mode; sc.seed = c.sched_seed; sc.w_fine = c.w_fine; sc.w_mid = c.w_mid; sc.w_coarse = c.w_coarse; sc.pct_d = c.pct_d; sc.total_steps_hint = c.pct_span;
+        if (!c.schedule.empty()) { sc.mode = SM_REPLAY; sc.replay = c.schedule.data(); sc.nreplay = (int)c.schedule.size(); }
+        cr = run_plans_concurrent(c.tasks, c20_cfg(), sc);
+        out.schedule = cr.sched.slices;
+    }
     std::vector<PlanRun> solo(nc);
     bool nontriv = false; std::ostringstream s; s << "{\"clients\":[";
     for (int i = 0; i < nc; i++) {
@@ -108,10 +117,6 @@ RunOutcome exec_C20(const Case &c) {
     s << "]";
     out.stats["clients"] += nc; out.stats["plans"] += 1;
     if (nc >= 2) {
-        SchedConfig sc; sc.mode = c.sched_mode; sc.seed = c.sched_seed; sc.w_fine = c.w_fine; sc.w_mid = c.w_mid; sc.w_coarse = c.w_coarse; sc.pct_d = c.pct_d; sc.total_steps_hint = total;
-        if (!c.schedule.empty()) { sc.mode = SM_REPLAY; sc.replay = c.schedule.data(); sc.nreplay = (int)c.schedule.size(); }
-        ConcurrentResult cr = run_plans_concurrent(c.tasks, c20_cfg(), sc);
-        out.schedule = cr.sched.slices;
         out.stats["concurrent_runs"] += 1; out.stats["preempt_switches"] += (double)cr.sched.switches; out.stats["preempt_switches_in_library"] += (double)cr.sched.switches_in_library;
         h.u64(cr.sched.interleaving_hash);
         for (int i = 0; i < nc; i++) {
